@@ -125,7 +125,7 @@ func loadProgram(dir string, patterns []string, overlay map[string][]byte) (*Pro
 				}
 				for _, fc := range cf.Funcs {
 					key, err := P.resolveKey(p, fc.Key)
-					if fc.IsLemma {
+					if fc.IsLemma || fc.IsLua {
 						key, err = p.PkgPath+"."+fc.Key, nil
 					}
 					if err != nil {
